@@ -257,7 +257,7 @@ def run_tlc(spec, cfg=None, env=None, workers=None, timeout=900, simulate=None, 
     """Run TLC on specs/<spec>.tla with specs/<cfg>.cfg.  Raises MachineryError when TLC
     itself fails (parse error, evaluation error, timeout); a violated invariant is a result."""
     spec_path = os.path.join(SPECS, spec + ".tla")
-    cfg_path = os.path.join(SPECS, (cfg or spec) + ".cfg")
+    cfg_path = cfg if (cfg and os.path.isabs(cfg)) else os.path.join(SPECS, (cfg or spec) + ".cfg")
     meta = tempfile.mkdtemp(prefix="tlcmeta_")
     e = dict(os.environ)
     e.update({k: str(v) for k, v in (env or {}).items()})
@@ -310,6 +310,15 @@ def write_cases(cases, prefix="cases_"):
 
 
 _scratch = []
+
+
+def temp_cfg(text):
+    """A configuration file with constants computed by the harness (bounds per tier)."""
+    fd, path = tempfile.mkstemp(prefix="cfg_", suffix=".cfg")
+    with os.fdopen(fd, "w") as f:
+        f.write(text)
+    _scratch.append(path)
+    return path
 
 
 def cleanup():
